@@ -227,18 +227,22 @@ type restored struct {
 }
 
 // restoreInto restores an archive into a fresh datastore + fresh mock node and reads back identity and logs.
-// preexisting: the target secret store already holds an account.
+// preexisting: 0 = fresh target store, 1 = it already holds an account, 2 = it holds only an account proof key.
 // patience: how long a restore may run before it is taken to wait for entries that are not in the archive; valid
 // archives get a long one (a slow machine must not turn into a rejection), mutated ones a short one.
-func restoreInto(t testing.TB, src *c20Source, archive []byte, preexisting bool, patience time.Duration, withService bool) *restored {
+func restoreInto(t testing.TB, src *c20Source, archive []byte, preexisting int, patience time.Duration, withService bool) *restored {
 	r := &restored{groups: map[string]groupSnapshot{}}
 	ctx, cancel := context.WithCancel(context.Background())
 	defer cancel()
 	dsB := dsync.MutexWrap(ds.NewMapDatastore())
 	ssB, err := secretstore.NewSecretStore(dsB, nil)
 	vmust(err)
-	if preexisting {
+	switch preexisting {
+	case 1: // an account was used on the target store
 		_, _, err := ssB.GetGroupForAccount()
+		vmust(err)
+	case 2: // only the proof key exists there (a multi-member identity was derived before anything else)
+		_, err := ssB.GetOwnMemberDeviceForGroup(vDetGroup(src_seed(src), "c20-foreign-group"))
 		vmust(err)
 	}
 	mn := mocknet.New()
@@ -483,7 +487,7 @@ func c20CheckValid(rep *vrep.Report, t testing.TB, src *c20Source) {
 	}
 	rep.Eval(fmt.Sprintf("valid/archive-content/groups=%d/max-heads=%d", len(src.groups), maxHeads))
 	// (b) restore into an empty node
-	r := restoreInto(t, src, src.archive, false, 60*time.Second, true)
+	r := restoreInto(t, src, src.archive, 0, 60*time.Second, true)
 	rep.AddTransitions(1)
 	rep.Eval(fmt.Sprintf("valid/restore/groups=%d/err=%v", len(src.groups), r.err != nil))
 	if r.panicked != nil {
@@ -521,7 +525,7 @@ func c20Mutations(rep *vrep.Report, t testing.TB, src *c20Source) {
 		name       string
 		ms         []tarMember
 		mustReject bool
-		preexist   bool
+		preexist   int
 	}
 	var muts []mut
 	clone := func() []tarMember {
@@ -546,14 +550,14 @@ func c20Mutations(rep *vrep.Report, t testing.TB, src *c20Source) {
 		k := kind(m.Name)
 		// dropped / duplicated
 		d := clone()
-		muts = append(muts, mut{"drop-" + k, append(d[:i:i], d[i+1:]...), k == "key", false})
+		muts = append(muts, mut{"drop-" + k, append(d[:i:i], d[i+1:]...), k == "key", 0})
 		d2 := clone()
 		dup := append(append(append([]tarMember{}, d2[:i+1]...), tarMember{m.Name, append([]byte{}, m.Data...)}), d2[i+1:]...)
 		if k != "heads" {
 			// a duplicated heads file is left out: loading heads that the store already holds hands a nil entry
 			// to the replicator in a background goroutine and kills the process (observation outside the property's
 			// rejection list, see DESIGN.md); nothing in a harness can survive that
-			muts = append(muts, mut{"duplicate-" + k, dup, k == "key", false})
+			muts = append(muts, mut{"duplicate-" + k, dup, k == "key", 0})
 		}
 		// byte flips
 		var positions []int
@@ -567,19 +571,19 @@ func c20Mutations(rep *vrep.Report, t testing.TB, src *c20Source) {
 		for _, p := range positions {
 			f := clone()
 			f[i].Data[p] ^= 1 << uint(p%8)
-			muts = append(muts, mut{"flip-" + k, f, k == "entry", false})
+			muts = append(muts, mut{"flip-" + k, f, k == "entry", 0})
 		}
 		if i+1 < len(members) {
 			s := clone()
 			s[i], s[i+1] = s[i+1], s[i]
-			muts = append(muts, mut{"swap-adjacent", s, false, false})
+			muts = append(muts, mut{"swap-adjacent", s, false, 0})
 		}
 	}
 	rev := clone()
 	for i, j := 0, len(rev)-1; i < j; i, j = i+1, j-1 {
 		rev[i], rev[j] = rev[j], rev[i]
 	}
-	muts = append(muts, mut{"reverse-order", rev, false, false})
+	muts = append(muts, mut{"reverse-order", rev, false, 0})
 	// entry renamed to another entry's identifier, key files swapped
 	var entryIdx []int
 	for i, m := range members {
@@ -590,10 +594,10 @@ func c20Mutations(rep *vrep.Report, t testing.TB, src *c20Source) {
 	if len(entryIdx) >= 2 {
 		rn := clone()
 		rn[entryIdx[0]].Name = members[entryIdx[1]].Name
-		muts = append(muts, mut{"entry-renamed-to-another-identifier", rn, true, false})
+		muts = append(muts, mut{"entry-renamed-to-another-identifier", rn, true, 0})
 		sw := clone()
 		sw[entryIdx[0]].Data, sw[entryIdx[1]].Data = sw[entryIdx[1]].Data, sw[entryIdx[0]].Data
-		muts = append(muts, mut{"entry-contents-swapped", sw, true, false})
+		muts = append(muts, mut{"entry-contents-swapped", sw, true, 0})
 	}
 	ks := clone()
 	var ki []int
@@ -604,11 +608,11 @@ func c20Mutations(rep *vrep.Report, t testing.TB, src *c20Source) {
 	}
 	if len(ki) == 2 {
 		ks[ki[0]].Data, ks[ki[1]].Data = ks[ki[1]].Data, ks[ki[0]].Data
-		muts = append(muts, mut{"key-files-swapped", ks, false, false})
+		muts = append(muts, mut{"key-files-swapped", ks, false, 0})
 	}
-	muts = append(muts, mut{"restore-onto-existing-account", clone(), true, true})
+	muts = append(muts, mut{"restore-onto-existing-account", clone(), true, 1}, mut{"restore-onto-store-with-proof-key-only", clone(), true, 2})
 
-	valid := restoreInto(t, src, src.archive, false, 60*time.Second, false)
+	valid := restoreInto(t, src, src.archive, 0, 60*time.Second, false)
 	var wg sync.WaitGroup
 	sem := make(chan struct{}, 12)
 	for _, m := range muts {
@@ -641,6 +645,9 @@ func c20Mutations(rep *vrep.Report, t testing.TB, src *c20Source) {
 				}
 			}
 			rep.Eval(fmt.Sprintf("mutation/%s/%s", m.name, outcome))
+			if m.preexist != 0 && r.err != nil {
+				rep.Set("refusal_"+m.name, r.err.Error())
+			}
 			if m.mustReject && r.err == nil {
 				rep.Violation("C20/corrupt-archive-accepted/"+m.name, fmt.Sprintf("history %v: archive with mutation '%s' is restored without error (%s)", src.ops, m.name, outcome), c20Case{src.ops, m.name})
 			}
@@ -652,3 +659,5 @@ func c20Mutations(rep *vrep.Report, t testing.TB, src *c20Source) {
 	wg.Wait()
 	rep.Sample(map[string]interface{}{"mutated_archive_of": fmt.Sprint(src.ops), "members": len(members), "mutations": len(muts)})
 }
+
+func src_seed(src *c20Source) int64 { return 1 }
